@@ -9,7 +9,7 @@ for d in seeded/${1:-}*/; do
   prop=$(python3 -c "import json;print(json.load(open('$d/meta.json'))['property'])")
   checks=$(python3 -c "import json;print(','.join(json.load(open('$d/meta.json'))['checks'].keys()))")
   src=$(mktemp -d /tmp/reeval-XXXX)
-  cp "$d"/patch.diff "$src"/; cp "$d"/*_test.go "$src"/ 2>/dev/null; cp "$d"/meta.txt "$src"/ 2>/dev/null
+  cp "$d"/patch.diff "$src"/; cp "$d"/*_test.go "$src"/ 2>/dev/null; cp "$d"/meta.txt "$src"/ 2>/dev/null || python3 -c "import json;open('$src/meta.txt','w').write(json.load(open('$d/meta.json')).get('needs_to_manifest',''))"
   tools/seedeval.py "$src" "$prop" "$name" --checks "$checks" 2>&1 | python3 -c "
 import sys,json
 t=sys.stdin.read()
